@@ -32,6 +32,11 @@ def universes(tier):
                        "{o}.{m}>>CC(=O)O", "{o}>>CC(=O)O.{m}", "{m}.{o}>>{m}.CC"):
                 spell.append(rx.format(m=m, o=other))
     us.append(("marker positions", pf.dedupe(spell), {}, 15))
+    # rows of an earlier result table whose reaction was edited and that are fed in again
+    stale = []
+    for i, r in enumerate(pf.dedupe(pf.HAND[:16] + pf.rxn_universe(A02[:5], 1))):
+        stale.append({"reaction": r, "input_reaction": "CCC>>CCCC", "solved": i % 2 == 0, "solved_by": "rule-based", "issue": "old"})
+    us.append(("stale input_reaction column", stale, {}, 4))
     return us
 
 
@@ -46,7 +51,7 @@ def run(tier, seed):
         "Non-trivial = distinct inputs whose returned reaction differs from input_reaction "
         "(something was added)."
     )
-    res.coverage["samples"] = [us[0][1][5], us[0][1][-1], us[-1][1][0], us[-1][1][-1]]
+    res.coverage["samples"] = [us[0][1][5], us[0][1][-1], us[-2][1][0], us[-1][1][0]]
     res.assumptions = ["molecule identity = RDKit canonical SMILES of each fragment, atom maps cleared",
                        "domain: closed-shell molecules, no free atomic H/O placeholders in the input"]
     return res
